@@ -31,6 +31,10 @@ pub async fn reads_cmd(rep: &mut Report, table: &str, rf: u8) {
       // phase 1: the actor is running before the events exist and learns about the quorum-confirmed transactions through
       // live ConfirmTransaction messages, last transaction first (an event nobody reported has no entry: a hole)
       for phase in 0..2u8 {
+        // the live phase on a quarter of the histories in the thorough tier (the table is eight times larger there)
+        if phase == 1 && !quick && ri % 4 != 0 {
+            continue;
+        }
         rep.eval(1);
         let dir = fresh_dir(&root, "h");
         let db = open_db(&dir, 1);
